@@ -389,7 +389,7 @@ func init() {
 	add("str mixed tx expiry", 5, func(g *G) []string { return []string{g.pick("INCR", "DECR"), g.Key()} })
 	add("str mixed tx", 6, func(g *G) []string { return []string{g.pick("INCRBY", "DECRBY"), g.Key(), g.Int()} })
 	add("str mixed", 3, func(g *G) []string {
-		return []string{"INCRBYFLOAT", g.Key(), g.pick("1.5", "-0.25", "10", "0.1", "2.0", "-3", "100.125")}
+		return []string{"INCRBYFLOAT", g.Key(), g.pick("1.5", "-0.25", "10", "0.1", "2.0", "-3", "100.125", "inf", "-inf", "nan", "1e21", "5e-7", "1e300", "-3e21")}
 	})
 	add("str", 2, func(g *G) []string { return []string{"LCS", g.Key(), g.Key(), g.kw("LEN")} })
 
@@ -538,17 +538,43 @@ func init() {
 	})
 	add("hash mixed tx", 8, func(g *G) []string { return []string{"HINCRBY", g.Key(), g.Member(), g.Int()} })
 	add("hash mixed", 3, func(g *G) []string {
-		return []string{"HINCRBYFLOAT", g.Key(), g.Member(), g.pick("1.5", "-0.25", "10", "0.1", "2.0")}
+		return []string{"HINCRBYFLOAT", g.Key(), g.Member(), g.pick("1.5", "-0.25", "10", "0.1", "2.0", "1.5", "inf", "-inf", "+Infinity", "nan", "1e21", "1e20", "5e-7", "1e300", "-3e21")}
 	})
 	add("hash mixed", 4, func(g *G) []string {
 		a := []string{"HRANDFIELD", g.Key()}
 		if g.R.Intn(3) > 0 {
-			a = append(a, g.pick("0", "1", "2", "3", "10", "-1", "-3", "-10"))
+			a = append(a, g.pick("0", "1", "2", "3", "10", "-1", "-3", "-10", "12", "13", "14", "17", "22", "26", "30", "-25"))
 			if g.R.Intn(2) == 0 {
 				a = append(a, g.kw("WITHVALUES"))
 			}
 		}
 		return a
+	})
+	// a collection of a known size and counts just below it (a draw of "nearly everything"), several times each
+	add("hash set", 2, func(g *G) []string {
+		k := g.Key()
+		n := 14 + g.R.Intn(28)
+		hash := g.Fam == "hash" || (g.Fam != "set" && g.R.Intn(2) == 0)
+		fill := []string{"SADD", k}
+		if hash {
+			fill = []string{"HSET", k}
+		}
+		for i := 0; i < n; i++ {
+			fill = append(fill, fmt.Sprintf("r%d", i))
+			if hash {
+				fill = append(fill, "v")
+			}
+		}
+		st := []Step{{1, []string{"DEL", k}}, {1, fill}}
+		for _, c := range []int{n - 2, n - 3, n - 2, n * 9 / 10, n - 4, n - 2, n - 1, n, n + 3} {
+			if hash {
+				st = append(st, Step{1, []string{"HRANDFIELD", k, strconv.Itoa(c)}})
+			} else {
+				st = append(st, Step{1, []string{"SRANDMEMBER", k, strconv.Itoa(c)}})
+			}
+		}
+		g.Script = append(g.Script, st...)
+		return []string{"EXISTS", k}
 	})
 	add("hash mixed", 2, func(g *G) []string {
 		a := []string{"HSCAN", g.Key(), "0"}
@@ -644,7 +670,7 @@ func init() {
 	add("set mixed", 4, func(g *G) []string {
 		a := []string{"SRANDMEMBER", g.Key()}
 		if g.R.Intn(3) > 0 {
-			a = append(a, g.pick("0", "1", "2", "3", "10", "-1", "-3", "-10"))
+			a = append(a, g.pick("0", "1", "2", "3", "10", "-1", "-3", "-10", "12", "13", "14", "17", "22", "26", "30", "-25"))
 		}
 		return a
 	})
@@ -837,15 +863,29 @@ func init() {
 		ms := 8 + g.R.Intn(20)
 		// (the deadline is set when the first step is issued, a few steps from now: a generous band)
 		g.Dangers = append(g.Dangers, time.Now().UnixNano()+int64(ms)*1e6, time.Now().UnixNano()+int64(ms+2)*1e6)
-		g.Script = append(g.Script,
-			Step{o, []string{"SET", k, "soon-gone", "PX", strconv.Itoa(ms)}},
-			Step{c, []string{"WATCH", k}},
-			Step{c, []string{"MULTI"}},
-			Step{c, []string{"SET", g.Key(), "by-the-transaction"}},
-			Step{o, []string{g.pick("GET", "EXISTS", "TTL", "STRLEN"), k}},
-			Step{1, []string{"VERIF-SLEEP", strconv.Itoa(ms + 12)}},
-			Step{o, []string{g.pick("GET", "EXISTS", "PTTL"), k}},
-			Step{c, []string{"EXEC"}})
+		if g.R.Intn(2) == 0 {
+			g.Script = append(g.Script,
+				Step{o, []string{"SET", k, "soon-gone", "PX", strconv.Itoa(ms)}},
+				Step{c, []string{"WATCH", k}},
+				Step{c, []string{"MULTI"}},
+				Step{c, []string{"SET", g.Key(), "by-the-transaction"}},
+				Step{o, []string{g.pick("GET", "EXISTS", "TTL", "STRLEN"), k}},
+				Step{1, []string{"VERIF-SLEEP", strconv.Itoa(ms + 12)}},
+				Step{o, []string{g.pick("GET", "EXISTS", "PTTL"), k}},
+				Step{c, []string{"EXEC"}})
+		} else {
+			// nothing watched: the commands queued BEFORE the deadline run AFTER it, and see the key gone
+			g.Script = append(g.Script,
+				Step{o, []string{"SET", k, "7", "PX", strconv.Itoa(ms)}},
+				Step{c, []string{"MULTI"}},
+				Step{c, []string{"GET", k}},
+				Step{c, []string{g.pick("EXISTS", "PTTL", "STRLEN", "TYPE"), k}},
+				Step{c, g.pickArgv([]string{"INCR", k}, []string{"APPEND", k, "1"}, []string{"SETNX", k, "1"}, []string{"GETDEL", k})},
+				Step{c, []string{"DBSIZE"}},
+				Step{1, []string{"VERIF-SLEEP", strconv.Itoa(ms + 12)}},
+				Step{c, []string{"EXEC"}},
+				Step{o, []string{"GET", k}})
+		}
 		return []string{"DISCARD"}
 	})
 	// a flush is a modification of every watched key of the database(s) it empties
@@ -885,6 +925,8 @@ func init() {
 		}
 	})
 }
+
+func (g *G) pickArgv(opts ...[]string) []string { return opts[g.R.Intn(len(opts))] }
 
 func (g *G) membersN(lo, hi int) []string {
 	n := lo + g.R.Intn(hi-lo+1)
